@@ -61,6 +61,22 @@ def toy_fc(prov, req, injected, raw=False):
     return _FC[key]
 
 
+_SHARED = {'n': 0, 'b': None}
+
+
+def shared_builder():
+    """Two out of three builds are done by one long-lived Builder instance (the parsed contents are
+    shared between the cases of a layout as well): by C12 a build does not depend on earlier ones,
+    so every case must get the verdict and semantics of *its own* configuration."""
+    from dznpy.adv_shell import Builder
+    _SHARED['n'] += 1
+    if _SHARED['n'] % 3 == 0:
+        return None
+    if _SHARED['b'] is None:
+        _SHARED['b'] = Builder()
+    return _SHARED['b']
+
+
 def pre(sel, prefix):
     return sel if isinstance(sel, str) else [prefix + n for n in sel]
 
@@ -88,7 +104,7 @@ def judge(verdict, ref, spec, fc, prov, req, injected, build):
         files = None
         if build:
             stage = 'build'
-            kind, res = cfgspec.outcome(spec, fc=fc)
+            kind, res = cfgspec.outcome(spec, fc=fc, builder=shared_builder())
             if kind == 'err':
                 raise res
             files = res
